@@ -10,6 +10,9 @@
                                                                              z -> 0 limits of the tableau (Tableau.tla): a rational Runge-Kutta step
        Resample(M)    map_between_resolutions(u, M)                          Scale, ZeroOddballOld, CopyBlocks, Rescale, ZeroOddballNew
        Project        Leray projection of a vector field (D >= 2)
+       Incomp         ex.spectral.make_incompressible(u)                     the same projection through the other public entry point
+       Poisson(o)     ex.poisson.Poisson(D, L, N, order = o)(u)              u_p -> u_p / Sum p_d^2 (o = 2), - u_p / Sum p_d^4 (o = 4: the documented "without spatial mixing" operator), mean removed
+       Oddball        irfft( rfft(u) * oddball_filter_mask )                 drops every mode with a Nyquist component (even grids)
        AddMode(b)     u + a real basis function (keeps the sessions from dying out)
    The variable `last` names the action taken; TLC's -simulate writes behaviours that are replayed call by call into the library with the
    whole state compared after every action.  Invariants: the state is always a real field of the current grid; Apply / RK results are
@@ -43,6 +46,9 @@ MapCh(g(_)) == [c \in 1..Len(st) |-> g(st[c])]
 \* ---------------------------------------------------------------- the operations on one channel
 DeriveF(c, d, m) == Canon(HMul(Half(c), LAMBDA s : CPow(Cx(QZero, QInt(K(D, N, s)[d])), m)))
 FilterF(c, cut)  == Canon([s \in {t \in DOMAIN Half(c) : LowPassBox(D, N, t, cut)} |-> Half(c)[s]])
+VQuart(p)        == FoldSet(LAMBDA d, acc : p[d] * p[d] * p[d] * p[d] + acc, 0, DOMAIN p)
+PoissonF(c, o)   == [p \in DOMAIN c \ {VZero(D)} |-> CScale(IF o = 2 THEN <<1, VSq(p)>> ELSE <<-1, VQuart(p)>>, c[p])]
+OddballF(c)      == [p \in {q \in DOMAIN c : N % 2 = 1 \/ 2 * VMaxAbs(q) < N} |-> c[p]]
 \* nonlinear terms: dealiased evaluation on true wavenumbers (the truncated input is Nyquist-free, so canonical = true wavenumbers)
 Frac(t) == IF t \in {"poly3"} THEN <<1, 2>> ELSE <<2, 3>>
 Cut(t) == DealiasCut(N, Frac(t)[1], Frac(t)[2])
@@ -117,10 +123,14 @@ Resample == \E e \in Sizes : /\ e \div 1000 = D /\ e % 1000 # N
                              /\ N' = e % 1000 /\ \E rep \in 1..3 : last' = [op |-> "resample", M |-> e % 1000, rep |-> rep]
                              /\ len' = len + 1 /\ UNCHANGED <<D, nl>>
 Project == IsVec /\ (\A c \in 1..Len(st) : \A p \in DOMAIN st[c] : 2 * VMaxAbs(p) < N) /\ \E rep \in 1..6 : Step(Leray(D, w, st), [op |-> "leray", rep |-> rep], 0)
+NyqFree == \A c \in 1..Len(st) : \A p \in DOMAIN st[c] : 2 * VMaxAbs(p) < N
+Incomp  == IsVec /\ NyqFree /\ \E rep \in 1..3 : Step(Leray(D, w, st), [op |-> "incomp", rep |-> rep], 0)
+Poisson == \E o \in {2, 4}, rep \in 1..2 : Step(MapCh(LAMBDA c : PoissonF(c, o)), [op |-> "poisson", o |-> o, rep |-> rep], 0)
+OddballA == N % 2 = 0 /\ Step(MapCh(OddballF), [op |-> "oddball"], 0)
 AddMode == \E p \in {NthMode(D, N, i) : i \in 1..3}, tr \in {"cos", "sin"}, ch \in 1..Len(st) :
               Step([c \in 1..Len(st) |-> IF c = ch THEN FAdd(st[c], BasisOn(D, N, p, tr)) ELSE st[c]],
                    [op |-> "addmode", p |-> p, trig |-> tr, ch |-> ch], 0)
-Next == len < MaxLen /\ (Derive \/ Filter \/ Apply \/ RK \/ Resample \/ Project \/ AddMode)
+Next == len < MaxLen /\ (Derive \/ Filter \/ Apply \/ RK \/ Resample \/ Project \/ Incomp \/ Poisson \/ OddballA \/ AddMode)
 Spec == Init /\ [][Next]_vars
 
 \* ---------------------------------------------------------------- properties
@@ -137,5 +147,11 @@ Div(U) == FSumD(D, LAMBDA d : FD(w, d, U[d]))
 ProjectOK == (last.op = "leray" /\ \A c \in 1..Len(st) : \A p \in DOMAIN st[c] : 2 * VMaxAbs(p) < N) =>
                  (DOMAIN Div(st) = {} /\ Leray(D, w, st) = st)
 \* differentiation removes the mean
+\* the Poisson solution has no mean and solves the equation: - Laplace^(o/2) u = f - mean f  (checked on the pre-state through the action)
+PoissonOK == [][ (last'.op = "poisson") =>
+                    \A c \in 1..Len(st) : /\ VZero(D) \notin DOMAIN st'[c]
+                                           /\ \A p \in DOMAIN st[c] \ {VZero(D)} :
+                                                 CScale(QInt(IF last'.o = 2 THEN VSq(p) ELSE -VQuart(p)), st'[c][p]) = st[c][p] ]_vars
+OddballOK == (last.op = "oddball") => NyqFree
 DeriveOK == (last.op = "derive") => \A c \in 1..Len(st) : VZero(D) \notin DOMAIN st[c]
 =============================================================================
